@@ -99,7 +99,7 @@ def run(case, ctx):
         except BaseException as e:  # noqa: BLE001
             if behave._is_ctl(e):
                 raise
-            ctx.skip("import_failed")  # C01's verdict
+            ctx.violation("package.imports", {"exc": type(e).__name__}, repr(e)[:300])   # the documents are in the domain: a package that cannot be imported decides the property negatively
             ctx.label("import_failed:" + type(e).__name__)
             return
         with pkg:
@@ -108,7 +108,7 @@ def run(case, ctx):
             except BaseException as e:  # noqa: BLE001
                 if behave._is_ctl(e):
                     raise
-                ctx.skip("import_failed")
+                ctx.violation("package.imports", {"exc": type(e).__name__}, repr(e)[:300])   # the documents are in the domain: a package that cannot be imported decides the property negatively
                 return
             for name, value in case["insts"]:
                 s = comps.get(name)
